@@ -581,9 +581,17 @@ func c13h(c *Ctx) {
 	}
 	info := f.Info()
 	g := f.Graph()
-	opens := f.Calls(Callee{"os", "", "Open"})
+	allOpens := f.Calls(Callee{"os", "", "Open"})
 	writes := f.Calls(Callee{pkgDurable, "", "WriteFile"})
 	cmp := f.Calls(Callee{pkgCtlog, "", "compareFile"})
+	// the probe is an Open made before the write (one made after it - to set the immutable flag on the
+	// file just written - probes nothing)
+	var opens []Site
+	for _, o := range allOpens {
+		if pt, _ := g.Reach(o.After(), Cut{}, atAnySite(writes)); pt != nil {
+			opens = append(opens, o)
+		}
+	}
 	if len(opens) == 0 || len(writes) == 0 {
 		c.Bad(f.Name+" existing object", f.Pos(f.Decl), "Upload does not probe for an existing object before writing an immutable one")
 		return
@@ -893,6 +901,47 @@ func c13k(c *Ctx) {
 	for _, r := range reads {
 		if pt, _ := g.Reach(r.After(), Cut{Edges: same}, atAnySite(append(append([]Site{}, okRets...), reads...))); pt != nil {
 			bad = true
+		}
+	}
+	// ... and the whole chunk takes part in the comparison: a chunk longer than what is left of the
+	// new data is a difference (seed C13-r1 clamped the compared length to the shorter of the two, so
+	// an existing object was "equal" to any of its prefixes)
+	var nObj types.Object
+	for _, r := range reads {
+		if a, ok := r.Node.(*ast.AssignStmt); ok && len(a.Lhs) == 2 {
+			nObj = objOf(info, a.Lhs[0])
+		}
+	}
+	var isChunkLen func(e ast.Expr) bool
+	isChunkLen = func(e ast.Expr) bool {
+		if o := objOf(info, f.copyRoot(e)); o != nil && o == nObj {
+			return true
+		}
+		v := ast.Unparen(f.ResolveDeep(e).E)
+		if o := objOf(info, v); o != nil && o == nObj {
+			return true
+		}
+		if call, ok := v.(*ast.CallExpr); ok && isBuiltinCall(info, call, "len") && len(call.Args) == 1 {
+			if sl, isSl := ast.Unparen(f.ResolveDeep(call.Args[0]).E).(*ast.SliceExpr); isSl && sl.Low == nil && sl.High != nil {
+				return isChunkLen(sl.High)
+			}
+		}
+		return false
+	}
+	fits := g.EdgesImplying(func(a Atom) bool { rel, ok := cmpRel(a, isChunkLen, isLenData); return ok && rel&relGT == 0 })
+	if nObj == nil || len(fits) == 0 {
+		c.Bad(f.Name+" whole chunk compared", eqs[0].Pos(), "nothing rejects a chunk of the existing file that is longer than the remaining new data: an existing object would be accepted as identical to any prefix of it")
+	} else {
+		bad2 := false
+		for _, r := range reads {
+			if pt, _ := g.Reach(r.After(), Cut{Edges: fits}, atAnySite(append(append([]Site{}, okRets...), reads...))); pt != nil {
+				bad2 = true
+			}
+		}
+		if bad2 {
+			c.Bad(f.Name+" whole chunk compared", eqs[0].Pos(), "after reading a chunk longer than the remaining new data the comparison can continue or succeed")
+		} else {
+			c.add(Result{Instance: f.Name + " whole chunk compared", Verdict: Discharged, Evals: len(reads), Sites: sitePositions(reads), Detail: "chunk length > len(data) never reaches the next read or success", Witnesses: f.WitEdges(fits)})
 		}
 	}
 	if bad || len(same) == 0 {
